@@ -538,6 +538,9 @@ pixman_transform_rotate (struct pixman_transform *forward,
 
     if (reverse)
     {
+	if (s == INT32_MIN) /* -s is not representable */
+	    return FALSE;
+
 	pixman_transform_init_rotate (&t, c, -s);
 	if (!pixman_transform_multiply (reverse, reverse, &t))
 	    return FALSE;
@@ -578,6 +581,9 @@ pixman_transform_translate (struct pixman_transform *forward,
 
     if (reverse)
     {
+	if (tx == INT32_MIN || ty == INT32_MIN) /* not negatable */
+	    return FALSE;
+
 	pixman_transform_init_translate (&t, -tx, -ty);
 
 	if (!pixman_transform_multiply (reverse, reverse, &t))
